@@ -290,6 +290,9 @@ def _layout(rng, nb, nfiles=None, shuffle=True, maxfiles=4, id_base=0):
         ids = [99985 + v for v in rng.sample(range(0, max(40, 2 * nf)), nf)]
         if nf >= 2 and len({len(str(v)) for v in ids}) == 1:
             ids[0], ids[1] = 99999, 100000
+    elif id_base == "dense":
+        # files numbered 0 .. nf-1 at every level (what AMReX writes): Cell_D_00000 starts at offset 0 on each level
+        ids = list(range(nf))
     else:
         ids = [id_base + v for v in rng.sample(range(0, max(40, 2 * nf)), nf)]      # id_base 100000: six-digit file numbers
     order = list(range(nb))
